@@ -940,6 +940,13 @@ class BisectionZD(Bisection1D):
         negative_excess_values = [v for v in values if v <= 0.0]
 
         excess_of_interest = max(negative_excess_values)
+        # as in Bisection1D.search: when the excess is not monotone along the list the least negative excess does not
+        # belong to the smallest field, so take the smallest evaluated field that meets the limits
+        domain = self.coordinates_domain_nested[selection_key_outer]
+        for _, val in sorted(zip([len(domain[k]) for k in keys], values)):
+            if val <= 0.0:
+                excess_of_interest = val
+                break
         idx = values.index(excess_of_interest)
         selection_key = keys[idx]
         selected_coordinates = self.coordinates_domain_nested[selection_key_outer][selection_key]
